@@ -1,3 +1,6 @@
+pub mod expert;
 pub mod lifecycle;
+pub mod maps;
 pub mod limits;
 pub mod memo;
+pub mod symdiff;
